@@ -1058,8 +1058,16 @@ fn run_trial(line: &str) {
 			let pre_view = view_ids(&nodes[x], &ids, &w.c.chans[x]);
 			// (events handled by the op itself, e.g. `events n`, are gone from the pre-drain snapshot already)
 			let ev_before = ev_before.max(w.c.events.len());
+			// exactly the user events that are pending in the pre-drain snapshot (handling them may raise further
+			// events, which are not part of that snapshot)
+			if !w.c.evhold[x] {
+				for ev in nodes[x].node.get_and_clear_pending_events() {
+					w.handle_event(x, ev);
+				}
+			}
+			let ev_pending_end = w.c.events.len();
 			w.drain();
-			let evs: Vec<(String, String)> = w.c.events[ev_before..].iter().filter(|(n, _, _)| *n == x).map(|(_, a, b)| (a.clone(), b.clone())).collect();
+			let evs: Vec<(String, String)> = w.c.events[ev_before..ev_pending_end].iter().filter(|(n, _, _)| *n == x).map(|(_, a, b)| (a.clone(), b.clone())).collect();
 			let (l, inf, blk, hld) = view_ids(&nodes[x], &ids, &w.c.chans[x]);
 			snaps.push(Snap { pre: pre_bytes, post: nodes[x].node.encode(), latest: l, inflight: inf, blocked: blk, hold: hld, pre_view, events_at_step: evs });
 		}
